@@ -79,7 +79,40 @@ def r2(p, rep):
     rets = [n for n in walk_no_nested(f.node) if isinstance(n, ast.Return)]
     cfg = CFG(f.node)
     found = False
+    # `target, *coordinates, updates = tensors`: names for positions of the operand tuple
+    alias = {}  # name -> "target" | "rest"
+    for a in walk_no_nested(f.node):
+        if isinstance(a, ast.Assign) and len(a.targets) == 1 and isinstance(a.targets[0], ast.Tuple) and isinstance(a.value, ast.Name) and a.value.id == star:
+            elts = a.targets[0].elts
+            for i_, e in enumerate(elts):
+                nm = e.value.id if isinstance(e, ast.Starred) and isinstance(e.value, ast.Name) else (e.id if isinstance(e, ast.Name) else None)
+                if nm:
+                    alias[nm] = "target" if (i_ == 0 and not isinstance(e, ast.Starred)) else "rest"
+        if isinstance(a, ast.Assign) and len(a.targets) == 1 and isinstance(a.targets[0], ast.Name) and isinstance(a.value, ast.Subscript) and isinstance(a.value.value, ast.Name) and a.value.value.id == star:
+            sl = a.value.slice
+            alias[a.targets[0].id] = "target" if isinstance(sl, ast.Constant) and sl.value == 0 else "rest"
     for r in rets:
+        if isinstance(r.value, ast.Name) and r.value.id in alias:
+            found = True
+            ok = alias[r.value.id] == "target"
+            facts = cfg.guards(cfg.node_for(r))
+            used = {y.id for t, pol in facts for y in ast.walk(t) if isinstance(y, ast.Name) and y.id in alias}
+            text = " ".join(norm(t) for t, pol in facts)
+            for t, pol in facts:
+                for c in ast.walk(t):
+                    if isinstance(c, ast.Call):
+                        rr = resolve_callee(p, c, f.module)
+                        if rr and rr[0] == "func":
+                            text += " :: " + " ".join(norm(st) for st in rr[1].node.body)
+            ok2 = bool(used) and all(alias[u] == "rest" for u in used) and "== 0" in text
+            # one empty coordinate / update tensor is enough for "nothing is written": the test over several tensors is
+            # existential
+            univ = [c for t, pol in facts if pol for c in ast.walk(t) if isinstance(c, ast.Call) and isinstance(c.func, ast.Name) and c.func.id == "all" and c.args and isinstance(c.args[0], (ast.GeneratorExp, ast.ListComp)) and any(isinstance(y, ast.Name) and alias.get(y.id) == "rest" for y in ast.walk(c.args[0].generators[0].iter))]
+            if univ:
+                rep.violation("C14.R2", f"{f.qualname}:shortcut-quantifier", f"{f.module.rel}:{r.lineno}", f"`{norm(univ[0])[:70]}` requires ALL of these tensors to be empty: with one empty and one non-empty coordinate tensor the shortcut is not taken and the call fails in the solver instead of returning the unchanged target")
+            rep.add("C14.R2", f"{f.qualname}:shortcut-returns", f"{f.module.rel}:{r.lineno}", ok, f"returns {norm(r.value)} (= {star}[0])" if ok else f"returns `{norm(r.value)}`, which is not the target operand")
+            rep.add("C14.R2", f"{f.qualname}:shortcut-condition", f"{f.module.rel}:{r.lineno}", ok2, f"taken when a zero length occurs among the coordinates / updates ({sorted(used)}): {text[:100]}")
+            continue
         if isinstance(r.value, ast.Subscript) and isinstance(r.value.value, ast.Name) and r.value.value.id == star:
             found = True
             ok = isinstance(r.value.slice, ast.Constant) and r.value.slice.value == 0
